@@ -74,7 +74,9 @@ static void vol_decode_strict(const uint8_t* f, uint64_t n, VolImage& out) {
 // ---- reference encoder: image with `cnt` members, `unused` trailing index slots (name offset 0xFFFFFFFF), `extra` more bytes in
 // the index section than its entries need (multiple of... any), given kinds; names and payload lengths concrete, payload bytes
 // are left as they are in the buffer (symbolic).  Returns the total length.
-struct EncMember { const char* name; uint32_t size; uint16_t kind; };
+// size = the size recorded in the index entry; stored = the block length (differs from size for compressed members; default: same)
+struct EncMember { const char* name; uint32_t size; uint16_t kind; uint32_t stored = 0xFFFFFFFFu; };
+static uint32_t enc_stored(const EncMember& m) { return m.stored == 0xFFFFFFFFu ? m.size : m.stored; }
 static uint32_t vol_encode(uint8_t* f, const EncMember* ms, unsigned cnt, unsigned unused, unsigned extra, uint32_t* payloadOffsets) {
   uint32_t actual = 0; for (unsigned i = 0; i < cnt; i++) actual += (uint32_t)vc_len(ms[i].name) + 1;
   uint32_t sl = vc_pad4(actual + 4);
@@ -92,14 +94,14 @@ static uint32_t vol_encode(uint8_t* f, const EncMember* ms, unsigned cnt, unsign
     vf_st32(f + p, nameOff); vf_st32(f + p + 4, block); vf_st32(f + p + 8, ms[i].size); vf_st16(f + p + 12, ms[i].kind); p += 14;
     nameOff += (uint32_t)vc_len(ms[i].name) + 1;
     payloadOffsets[i] = block + 8;
-    block += 8 + vc_pad4(ms[i].size);
+    block += 8 + vc_pad4(enc_stored(ms[i]));
   }
   for (unsigned i = 0; i < unused; i++) { vf_st32(f + p, 0xFFFFFFFFu); vf_st32(f + p + 4, 0); vf_st32(f + p + 8, 0); vf_st16(f + p + 12, 0); p += 14; }
   for (unsigned i = 0; i < extra; i++) f[p++] = 0;
   while (p < 8 + hl) f[p++] = 0;
   for (unsigned i = 0; i < cnt; i++) {
-    memcpy(f + p, "VBLK", 4); vf_st32(f + p + 4, ms[i].size | 0x80000000u); p += 8;
-    p += ms[i].size;                                            // payload: left symbolic
+    memcpy(f + p, "VBLK", 4); vf_st32(f + p + 4, enc_stored(ms[i]) | 0x80000000u); p += 8;
+    p += enc_stored(ms[i]);                                     // payload: left symbolic
     while (p % 4) f[p++] = 0;
   }
   return p;
